@@ -29,6 +29,19 @@ def load(kind):
     return out
 
 
+def load_seeded():
+    out = []
+    d = os.path.join(VERIF, "seeded")
+    if not os.path.isdir(d):
+        return out
+    for name in sorted(os.listdir(d)):
+        mp = os.path.join(d, name, "meta.json")
+        if os.path.exists(mp):
+            meta = json.load(open(mp))
+            out.append({"name": "seeded/" + name, "kind": "seeded", "patch": os.path.join(d, name, "patch.diff"), "expect": [meta["property"]], "key": "", "meta_path": mp})
+    return out
+
+
 def apply_edits(root, edits):
     for e in edits:
         path = os.path.join(root, e["file"])
@@ -55,14 +68,20 @@ def one(m, suite=False, all_checks=False):
                 shutil.copytree(s, os.path.join(root, x))
             elif os.path.exists(s):
                 shutil.copy2(s, os.path.join(root, x))
-        apply_edits(root, m["edits"])
+        if m["kind"] == "seeded":
+            subprocess.run(["git", "init", "-q"], cwd=root)
+            r = subprocess.run(["git", "apply", "--whitespace=nowarn", m["patch"]], cwd=root, stdout=subprocess.PIPE, stderr=subprocess.STDOUT, text=True)
+            if r.returncode != 0:
+                return {"name": m["name"], "kind": m["kind"], "fired": {}, "error": "patch does not apply: " + r.stdout[-300:]}
+        else:
+            apply_edits(root, m["edits"])
         res = {"name": m["name"], "kind": m["kind"]}
         if suite:
             env = dict(os.environ, CARGO_NET_OFFLINE="true", CARGO_TARGET_DIR=os.path.join(tmp, "target"))
             r = subprocess.run(["cargo", "test", "--offline", "--lib"], cwd=root, env=env, stdout=subprocess.PIPE, stderr=subprocess.STDOUT, text=True)
             res["suite_green"] = r.returncode == 0
             res["suite_tail"] = r.stdout[-300:] if r.returncode else ""
-        checks = ALL if (all_checks or m["kind"] == "benign") else m["expect"]
+        checks = ALL if (all_checks or m["kind"] in ("benign", "seeded")) else m["expect"]
         env = dict(os.environ, VERIF_REPO=root, VERIF_EVIDENCE_DIR=os.path.join(tmp, "evidence"))
         fired = {}
         for c in checks:
@@ -102,12 +121,29 @@ def main():
     only = args[args.index("--only") + 1] if "--only" in args else None
     jobs = int(args[args.index("--jobs") + 1]) if "--jobs" in args else 8
     items = load("mutants") + load("benign")
+    if "--seeded" in args:
+        items = load_seeded()
     if only:
         items = [m for m in items if only in m["name"]]
     bad = 0
     with cf.ThreadPoolExecutor(jobs) as ex:
         for res, m in zip(ex.map(lambda m: one(m, suite, allc), items), items):
             fired = res["fired"]
+            if res.get("error"):
+                print("ERROR   %-34s %s" % (m["name"], res["error"]))
+                bad += 1
+                continue
+            if m["kind"] == "seeded":
+                hit = sorted(c for c, v in fired.items() if v["exit"] == 1)
+                own = m["expect"][0] in hit
+                meta = json.load(open(m["meta_path"]))
+                meta["checks_that_fire"] = {c: fired[c]["keys"] for c in hit}
+                meta["caught_by_own_property_check"] = own
+                json.dump(meta, open(m["meta_path"], "w"), indent=1)
+                print("%s %-34s own=%s fired=%s" % ("CAUGHT " if own else ("OTHER  " if hit else "MISSED "), m["name"], m["expect"][0], ",".join(hit)))
+                if not own:
+                    bad += 1
+                continue
             if m["kind"] == "mutants":
                 want = m.get("key", "")
                 hit = [c for c in m["expect"] if fired.get(c, {}).get("exit") == 1 and any(want in k for k in fired[c]["keys"])]
